@@ -32,7 +32,60 @@ func (c19) Assumptions() []string {
 
 var ttlBoundary = []int{-1, 0, 1, 2, 29, 30, 254, 255, 256, 257, 258, 300, 511, 65536, 65537, 65566}
 
+// genC19History draws two or three requests that one process serves one after the other (a few
+// seconds apart) for the same target text: whatever the process remembers from an earlier request
+// (a resolved target, a validated parameter, a cached default) must not leak into a later one with
+// another port, protocol, method or TTL range. No listener-backed (SACK) requests, no replies: every
+// run sends its whole TTL range.
+func genC19History(rng *rand.Rand) *sim.Scenario {
+	sc := &sim.Scenario{Property: "C19", Note: "family=history"}
+	v6 := chance(rng, 0.3)
+	host := target4
+	if v6 {
+		host = target6
+	}
+	target := host
+	if v6 && chance(rng, 0.5) {
+		target = "[" + host + "]"
+	}
+	n := between(rng, 2, 3)
+	var at int64
+	for k := 0; k < n; k++ {
+		if k > 0 {
+			at += int64(between(rng, 3, 20)) * 1000000
+		}
+		c := sim.Call{Entry: pick(rng, "run_traceroute", "run_traceroute", "http_handler"), StartUs: at}
+		c.Protocol = pick(rng, "udp", "icmp", "tcp")
+		if v6 && c.Protocol == "tcp" {
+			c.Protocol = "udp"
+		}
+		if c.Protocol == "tcp" {
+			c.Method = pick(rng, "syn", "")
+		}
+		c.WantV6 = v6
+		c.Target = target
+		c.Port = pick(rng, 0, 33434, 443, 8080, 1, 65535, 65536, 70000, -1, 53)
+		c.MinTTL, c.MaxTTL = 1, between(rng, 1, 4)
+		if c.Entry != "http_handler" && chance(rng, 0.3) {
+			c.MinTTL = between(rng, 1, c.MaxTTL)
+		}
+		if chance(rng, 0.1) {
+			c.MaxTTL = pick(rng, 0, 256, 300, -1)
+		}
+		c.TimeoutMs = pick(rng, 100, 150)
+		c.Queries = between(rng, 1, 2)
+		c.E2E = pick(rng, 0, 1)
+		sc.Calls = append(sc.Calls, c)
+	}
+	sc.Knobs.RandSeed = int64(rng.Uint32())
+	sc.Tape = tape(rng, 16)
+	return sc
+}
+
 func (c19) Gen(rng *rand.Rand, tier string, i int) *sim.Scenario {
+	if i%6 == 5 {
+		return genC19History(rng)
+	}
 	c := sim.Call{Entry: "run_traceroute"}
 	if chance(rng, 0.3) {
 		c.Entry = "http_handler"
@@ -145,9 +198,37 @@ func (c19) Gen(rng *rand.Rand, tier string, i int) *sim.Scenario {
 
 func (c19) Check(out *sim.Outcome, ri *RunInfo) []Violation {
 	vs := crashViolations(out)
-	cs := out.W.Calls[0]
+	if len(out.W.Calls) > 1 {
+		ri.probe("history.requests-in-one-process")
+		ri.NonTrivial = true
+	}
+	// every request of the scenario is judged on its own parameters: what an earlier request of the
+	// same process asked for must not show in a later one
+	for k, cs := range out.W.Calls {
+		if !cs.Started {
+			continue
+		}
+		for _, v := range c19CheckCall(out, cs, ri) {
+			if k > 0 {
+				v.Detail = fmt.Sprintf("request #%d of the process (after %s): ", k+1, c19Brief(out.W.Calls[k-1].C)) + v.Detail
+				if v.Facts != nil {
+					v.Facts["history"] = "later-request"
+				}
+			}
+			vs = append(vs, v)
+		}
+	}
+	return vs
+}
+
+func c19Brief(c *sim.Call) string {
+	return fmt.Sprintf("%s/%s target %s port %d ttl %d..%d", c.Protocol, c.Method, c.Target, c.Port, c.MinTTL, c.MaxTTL)
+}
+
+func c19CheckCall(out *sim.Outcome, cs *sim.CallState, ri *RunInfo) []Violation {
+	var vs []Violation
 	c := cs.C
-	ri.Shape = fmt.Sprintf("%s|%s|%s|%s|%d|%d|%d|%v", c.Entry, c.Protocol, c.Method, c.Target, c.Port, c.MinTTL, c.MaxTTL, c.WantV6)
+	ri.Shape += fmt.Sprintf("%s|%s|%s|%s|%d|%d|%d|%v;", c.Entry, c.Protocol, c.Method, c.Target, c.Port, c.MinTTL, c.MaxTTL, c.WantV6)
 	failed := cs.Err != nil
 	if c.Entry == "http_handler" {
 		failed = cs.HTTPStatus >= 400
@@ -204,6 +285,9 @@ func (c19) Check(out *sim.Outcome, ri *RunInfo) []Violation {
 		if !failed {
 			probed := ""
 			for _, ep := range out.W.Eps {
+				if ep.Created < cs.StartAt || (cs.EndAt > 0 && ep.Created > cs.EndAt) {
+					continue
+				}
 				for _, p := range ep.Probes {
 					if len(probed) < 120 {
 						probed += fmt.Sprintf(" %s:ttl%d", ep.Actor, p.TTL())
@@ -234,7 +318,7 @@ func (c19) Check(out *sim.Outcome, ri *RunInfo) []Violation {
 	wantAddr, wantPort := expectedTarget(c, cs.ResolvedPort)
 	for _, v := range views(out) {
 		ep := v.Ep
-		if len(ep.Probes) == 0 {
+		if len(ep.Probes) == 0 || v.Call != cs {
 			continue
 		}
 		minT, maxT := c.MinTTL, c.MaxTTL
